@@ -441,8 +441,12 @@ func valPredProp(c ValPredCase, r *pbt.R) error {
 		if got := gogu.MapContains(build(es, rep), c.Probe); got != contains {
 			return fmt.Errorf("m=%s (run %d): MapContains(%d) = %v, want %v", show(es), rep, c.Probe, got, contains)
 		}
-		if got := gogu.FilterMap(build(es, rep), p); !sameMap(got, q) {
+		fmArg := build(es, rep)
+		if got := gogu.FilterMap(fmArg, p); !sameMap(got, q) {
 			return fmt.Errorf("%s: FilterMap = %v, want exactly the qualifying entries %s", where(), got, show(q))
+		}
+		if !sameMap(fmArg, es) {
+			return fmt.Errorf("%s: FilterMap changed the map it was given: it now reads %v", where(), fmArg)
 		}
 		got := gogu.Find(build(es, rep), p)
 		if some && !sameMap(got, q[:1]) {
@@ -523,7 +527,11 @@ func kvPredProp(c KVPredCase, r *pbt.R) error {
 		where := func() string {
 			return fmt.Sprintf("m=%s, predicate: %s with ks=%v vs=%v (run %d)", show(es), kvModeNames[mode], c.KS, c.VS, rep)
 		}
-		picked := gogu.PickBy(build(es, rep), f)
+		pickArg := build(es, rep)
+		picked := gogu.PickBy(pickArg, f)
+		if !sameMap(pickArg, es) {
+			return fmt.Errorf("%s: PickBy changed the map it was given: it now reads %v", where(), pickArg)
+		}
 		if !sameMap(picked, yes) {
 			return fmt.Errorf("%s: PickBy = %v, want exactly the qualifying entries %s", where(), picked, show(yes))
 		}
@@ -1259,6 +1267,140 @@ func singleOutside(m []P, thorough bool) bool {
 const scopeSingle = "enumerated: every map in which each of the keys 0..3 (thorough 0..4) is absent or bound to one of the values 0..2 (0..3), "
 const scopeRandom = "random: up to 20 pairs over keys -4..19 and values 0..5 (a repeated key overwrites), predicate sets drawn from the same ranges. "
 const scopeColl = "enumerated: every collection of 0..2 maps over 4 keys x 3 values and every collection of 3 maps over 3 keys x 2 values (thorough: 4 keys x 2 values), "
+// ---------------------------------------------------------------------------
+// maps whose values are pointers: equality of values is pointer identity, not equality of what they point to
+
+// PtrCase: M maps keys to value codes 0..3; code c stands for the pointer ptrTab[c]: codes 0 and 1 are two DIFFERENT
+// pointers to equal integers, code 2 points to another integer, code 3 is the nil pointer. Probe is a code 0..4
+// (4 = a fifth pointer, never stored, that also points to an integer equal to those of codes 0 and 1).
+type PtrCase struct {
+	M     []P `json:"m"`
+	Probe int `json:"probe"`
+}
+
+func ptrTable() [5]*int {
+	a, b, c, d := 7, 7, 9, 7
+	return [5]*int{&a, &b, &c, nil, &d}
+}
+
+func ptrEnum(s pbt.Src, thorough bool) PtrCase {
+	nk := 3
+	if thorough {
+		nk = 4
+	}
+	return PtrCase{M: enumMap(s, nk, 4), Probe: s.Intn(5)}
+}
+
+func ptrGen(s pbt.Src, thorough bool) PtrCase {
+	return PtrCase{M: pbt.Seq(s, 0, 12, func(s pbt.Src) P { return P{genKey(s), s.Intn(4)} }), Probe: s.Intn(5)}
+}
+
+func ptrProp(c PtrCase, r *pbt.R) error {
+	es := canon(c.M)
+	for _, e := range es {
+		if e[1] < 0 || e[1] > 3 {
+			return nil // hand-edited replay outside the domain
+		}
+	}
+	tab := ptrTable()
+	probe := ((c.Probe % 5) + 5) % 5
+	name := func(p *int) string {
+		for i, q := range tab {
+			if p == q {
+				return fmt.Sprintf("p%d", i)
+			}
+		}
+		return "p?"
+	}
+	contains, distinct := false, map[int]bool{}
+	for _, e := range es {
+		if e[1] == probe {
+			contains = true
+		}
+		distinct[e[1]] = true
+	}
+	twins := distinct[0] && distinct[1]
+	r.NonTrivialIf(len(es) >= 2, ">= 2 entries")
+	if twins {
+		r.Label("two different pointers to equal integers stored")
+	}
+	if !contains && (probe == 4 || probe <= 1) && (distinct[0] || distinct[1]) {
+		r.Label("probe points to an integer equal to a stored pointer's, but is a different pointer")
+	}
+	for rep := 0; rep < reps; rep++ {
+		mk := func() map[int]*int {
+			m := map[int]*int{}
+			for _, e := range order(es, rep) {
+				m[e[0]] = tab[e[1]]
+			}
+			return m
+		}
+		where := fmt.Sprintf("m=%s with value code c = pointer p<c> (p0, p1, p4 point to equal integers, p3 is nil) (run %d)", show(es), rep)
+		if got := gogu.MapContains(mk(), tab[probe]); got != contains {
+			return fmt.Errorf("%s: MapContains(p%d) = %v, want %v (values are compared with ==: pointer identity)", where, probe, got, contains)
+		}
+		if got := gogu.MapSome(mk(), func(p *int) bool { return p == tab[probe] }); got != contains {
+			return fmt.Errorf("%s: MapSome(== p%d) = %v, want %v", where, probe, got, contains)
+		}
+		inv := gogu.Invert(mk())
+		if len(inv) != len(distinct) {
+			return fmt.Errorf("%s: Invert has %d keys, want the %d distinct pointers", where, len(inv), len(distinct))
+		}
+		for p, k := range inv {
+			if v, ok := lookup(es, k); !ok || tab[v] != p {
+				return fmt.Errorf("%s: Invert maps %s to key %d, which does not hold that pointer", where, name(p), k)
+			}
+		}
+		u := gogu.MapUnique(mk())
+		if len(u) != len(distinct) {
+			return fmt.Errorf("%s: MapUnique kept %d entries, want one per distinct pointer (%d)", where, len(u), len(distinct))
+		}
+		seen := map[*int]bool{}
+		for k, p := range u {
+			if v, ok := lookup(es, k); !ok || tab[v] != p {
+				return fmt.Errorf("%s: MapUnique holds %d:%s, which is not an entry of the map", where, k, name(p))
+			}
+			if seen[p] {
+				return fmt.Errorf("%s: MapUnique kept the pointer %s twice", where, name(p))
+			}
+			seen[p] = true
+		}
+		vals := gogu.Values(mk())
+		if len(vals) != len(es) {
+			return fmt.Errorf("%s: Values has %d elements, want %d", where, len(vals), len(es))
+		}
+		cnt := map[*int]int{}
+		for _, p := range vals {
+			cnt[p]++
+		}
+		for _, e := range es {
+			cnt[tab[e[1]]]--
+		}
+		for p, n := range cnt {
+			if n != 0 {
+				return fmt.Errorf("%s: Values lists the pointer %s %+d times too often", where, name(p), n)
+			}
+		}
+	}
+	return nil
+}
+
+// order returns the entries in the insertion order of run rep (as build does for int values).
+func order(es []P, rep int) []P {
+	out := append([]P(nil), es...)
+	switch rep % 3 {
+	case 1:
+		for i, j := 0, len(out)-1; i < j; i, j = i+1, j-1 {
+			out[i], out[j] = out[j], out[i]
+		}
+	case 2:
+		if len(out) > 1 {
+			out = append(out[len(out)/2:], out[:len(out)/2]...)
+		}
+	}
+	return out
+}
+
 const scopeRuns = "Every case is executed 3 times on fresh maps built in 3 insertion orders (Go randomises the iteration start). " +
 	"Distinct = enumerated cases (injective encoding) + hash-distinct random cases outside the enumerated scope (a key or value outside its domain, or a longer collection)."
 
@@ -1272,6 +1414,14 @@ func TestProp(t *testing.T) {
 			Enum: valPredEnum, Gen: valPredGen, Prop: valPredProp,
 			OutOfEnum:  func(c ValPredCase, th bool) bool { return singleOutside(c.M, th) },
 			RapidQuick: 300, RapidThorough: 6000,
+		},
+		&pbt.Check[PtrCase]{
+			Name: "ptrvalues",
+			Rule: "maps with POINTER values (value equality = pointer identity): MapContains, MapSome, Invert, MapUnique, Values on map[int]*int whose values are drawn from two different pointers to equal integers, a pointer to another integer and nil; the probe is one of them or a never-stored pointer to an equal integer. " +
+				"Enumerated: every map over 3 (thorough 4) keys x 4 pointer codes x 5 probes; random: up to 12 entries. Non-trivial = >= 2 entries. " + scopeRuns,
+			Enum: ptrEnum, Gen: ptrGen, Prop: ptrProp,
+			OutOfEnum:  func(c PtrCase, th bool) bool { return len(canon(c.M)) > 4 || mapOutside(c.M, 4, 4) },
+			RapidQuick: 200, RapidThorough: 3000,
 		},
 		&pbt.Check[KVPredCase]{
 			Name: "kvpred",
